@@ -254,3 +254,20 @@ Definition all_ops (parent : N) (f : mfile) : list op :=
   | FGood name (RPit ps :: _) => map (dump_op parent name) ps
   | _ => file_ops parent f
   end.
+
+(* ------------------------------------------------------------------ *)
+(* C06: a hostile file. Whatever its octets are, routecore's MrtFile iterators present
+   process_file with one of two things: nothing at all (the file cannot be opened, mapped or
+   decompressed: the error is returned before a record is looked at), or the records up to the
+   point where the parser stops - a truncated or unsupported header makes CommonHeader::parse
+   fail (UpdateIterator fuses, RibEntryIterator unwraps and panics inside the per-file task), an
+   unknown BGP4MP subtype reaches todo!(). What lies behind that point is never looked at. *)
+Inductive hfile :=
+| HUnreadable
+| HStops (name : N) (recs : list mrec) (k : nat).    (* the parser gets through the first k records of recs *)
+
+Definition file_of_hfile (h : hfile) : mfile :=
+  match h with HUnreadable => FBad | HStops name recs k => FGood name (take k recs) end.
+(* the file the parser would have read had it not stopped *)
+Definition whole_of_hfile (h : hfile) : mfile :=
+  match h with HUnreadable => FBad | HStops name recs _ => FGood name recs end.
